@@ -1,62 +1,105 @@
+import os
+
+
+def _gen(repo, verif, bdir, tier):
+    # the typed-wrapper instantiation is a compile unit of its own (the harness file compiled a second time): if the
+    # current BINTREE_DECLARE_INLINE_WRAPPERS no longer accepts it, the stub is compiled instead, the driver says so and
+    # the run is not called exhaustive - the rest of the check still gives its verdict
+    open(os.path.join(bdir, 'c11_wrap.c'), 'w').write('#define C11_WRAPPER_UNIT 1\n#include "c11_bintree.c"\n')
+    open(os.path.join(bdir, 'c11_wrap_stub.c'), 'w').write('#define C11_WRAPPER_STUB 1\n#include "c11_bintree.c"\n')
+
+
 CHECK = dict(
     level='exploration',
-    parts=[dict(name='c11', src=['harness/c11_bintree.c'], workers=16,
+    parts=[dict(name='c11', src=['harness/c11_bintree.c'], lib=['bintree.c'], workers=16, prebuild=_gen,
+                objs=[('@BUILD@/c11_wrap.c', [], '@BUILD@/c11_wrap_stub.c',
+                       'the BINTREE_DECLARE_INLINE_WRAPPERS instantiation (wrapper-against-plain-function differential)')],
                 deadline=dict(quick=240, thorough=1500))],
-    rule='every binary tree shape with 0..N nodes is produced by Catalan unranking (a hash set confirms the shapes are '
-         'pairwise distinct and their number equals the Catalan sum), built into a byte arena and handed to the real '
-         'bintree.c (compiled directly, it is not in librfn.a). One evaluation = one operation on one tree: an in-/pre-/'
-         'post-order iteration stepped with bintree_next to NULL (or j nodes followed by bintree_iterate_complete), a '
-         'bintree_free / bintree_free_left / bintree_free_right call with a logging deallocator, or one list iteration '
-         'of a spine. Oracles: returned sequence == recursive traversal of the harness\'s own shape arrays AND == '
-         'librfn\'s bintree_traverse_*; arena bytes after completion == before; deallocation log = exactly the nodes '
-         'of the subtree, once each, children before parents; link of the parent NULL after free_left/right; '
-         'deallocated nodes are poisoned with an odd pointer into an inaccessible page (main pass) or their page is '
-         'revoked with mprotect (guard pass), so following a stale link / any access faults. distinct_nontrivial = '
-         'number of distinct (pass, layout, operation, shape, observed sequence) tuples of operations applied at the '
-         'root of a tree with >= 2 nodes (plus the list cases), counted with a 128-bit hash set; operations rooted at '
-         'inner nodes and trees with < 2 nodes are evaluations but not counted as distinct.',
+    rule='five passes over the real bintree.c (not in librfn.a; the driver compiles it as an object of its own, so no harness '
+         'identifier shares a translation unit with it and a static it may grow is part of the resettable library image). MAIN: every '
+         'binary tree shape with 0..N nodes is produced by Catalan unranking (a hash set confirms the shapes are pairwise '
+         'distinct and their number equals the Catalan sum) and built into a byte arena whose node stride is derived from '
+         'sizeof(bintree_node_t) (8-aligned with a gap, and under-aligned: sizeof+2, addresses 2 mod 4 / 0 mod 4); the nodes '
+         'are placed in memory ascending with the pre-order id, reversed, and in one fixed permutation per node count. One '
+         'evaluation = one operation on one tree: an in-/pre-/post-order iteration stepped with bintree_next to NULL (or j '
+         'nodes followed by bintree_iterate_complete), a bintree_free / bintree_free_left / bintree_free_right call with a '
+         'logging deallocator (also one that itself frees another tree), or one list iteration of a spine. Oracles: returned '
+         'sequence == traversal of the harness\'s own shape arrays AND == librfn\'s bintree_traverse_*; every LINK of every '
+         'node has its original value after completion (other bytes of a node are not judged, bytes between nodes must not '
+         'change); deallocation log = exactly the nodes of the subtree, once each, children before parents (a call with NULL '
+         'is tolerated and counted); link of the parent NULL after free_left/right; deallocated nodes are filled with an odd '
+         'pointer into an inaccessible page, so following a stale link faults and a store is seen. GUARD: small shapes, every '
+         'node at the end of a page of its own that the deallocator revokes with mprotect, so any later access faults. DEEP: '
+         'a fixed family of ten degenerate / bushy shapes (left spine, right spine, zig-zag starting left / right, left comb, '
+         'right comb, zig-zag comb, heap-shaped full tree, left / right spine ending in a full tree) at every node count of a '
+         'stated size list, all six operations at the root plus complete-after-j for j in {1, n/2, n-1}, six layouts, same '
+         'oracles. LIST: bintree_iterate_list against the list e0..e_len and against bintree_traverse_list on left- and '
+         'right-leaning spines of every length of a stated list, elements leaves or inner nodes, nodes allocated ascending or '
+         'descending; is_list(NULL) is answered "no" and counted. WRAP: BINTREE_DECLARE_INLINE_WRAPPERS is instantiated once '
+         '(node type with the bintree_node_t at a non-zero offset) and every wrapper is run against the plain function on two '
+         'identical trees for every small shape and every node as argument. A hanging or run-away library call (watchdog; '
+         'callbacks bounded by a multiple of the node count) is a violation. distinct_nontrivial = number of distinct (pass, '
+         'layout, operation, shape, observed sequence) tuples of operations applied at the root of a tree with >= 2 nodes '
+         '(plus the list and wrapper cases), counted with a 128-bit hash set; operations rooted at inner nodes and trees '
+         'with < 2 nodes are evaluations but not counted as distinct.',
     bounds=dict(
-        quick='ALL shapes with 0..12 nodes (290 512 shapes) x {3 iterators, free, free_left, free_right} at the root, '
-              '8-byte aligned nodes; additionally for <= 10 nodes an under-aligned layout (stride 18, addresses 2 mod 4), '
-              'for <= 9 nodes every node as root of every operation, "j nodes then bintree_iterate_complete" for every j, '
-              'and the guard-page pass (page revoked on dealloc) for the three free variants at every node; list spines '
-              'left/right-leaning of length 1..12 with leaf and with inner-node elements',
-        thorough='ALL shapes with 0..15 nodes (13 402 697 shapes), same operations; under-aligned layout <= 13 nodes; every '
-                 'node as root, complete-after-j and guard-page pass <= 12 nodes; list spines of length 1..32'),
+        quick='MAIN: ALL shapes with 0..12 nodes (290 512 shapes) x {3 iterators, free, free_left, free_right} at the root, '
+              '8-aligned stride, nodes placed ascending (reversed placement <= 11 nodes, permuted <= 10); under-aligned stride '
+              '(ascending and reversed) <= 10 nodes; <= 9 nodes every node as root of every operation, "j nodes then '
+              'bintree_iterate_complete" for every j; <= 7 nodes a deallocator that frees another tree. GUARD: <= 9 nodes, the '
+              'three free variants at every node, ascending and reversed. DEEP: 10 shapes x node counts {13..130 (every one), '
+              '254..258, 510..514, 999..1001, 1022..1026, 65534..65538} x 6 layouts; operations that walk down from the root for '
+              'every node (post-order, the free variants) only where sum of node depths <= 3 000 000, i.e. not on the deep '
+              'members at 2^16 (in-/pre-order and the recursive traversals run there). LIST: lengths {1..130, 254..258, 510..514, '
+              '999..1001, 1022..1026} both directions, 65534..65538 right-leaning only (the left-leaning iterator is quadratic). '
+              'WRAP: all shapes <= 6 nodes, every node',
+        thorough='MAIN: ALL shapes with 0..15 nodes (13 402 697 shapes), same operations; reversed placement <= 14, permuted <= 13, under-aligned '
+                 '<= 13 nodes; every node as root, complete-after-j and GUARD <= 12 nodes. DEEP: as quick, and post-order iteration '
+                 'and bintree_free also on the deep members at 65534..65538 nodes (first layout only). LIST: as quick plus '
+                 'left-leaning 65534..65538. WRAP: <= 8 nodes'),
     assumptions=[
-        'scope: well-formed trees (no sharing, no cycles), nodes at least 2-byte aligned (both an 8-aligned and a '
-        '2-mod-4 placement are enumerated), one iterator at a time, no mutation by the caller during iteration other '
-        'than the deallocation done by bintree_free itself',
+        'scope: well-formed trees (no sharing, no cycles), nodes at least 2-byte aligned (an 8-aligned and a 2-mod-4 '
+        'placement are enumerated), one iterator at a time, no mutation by the caller during iteration other '
+        'than the deallocation done by bintree_free itself; fields of a node other than the two links start as '
+        'BINTREE_NODE_VAR_INIT leaves them',
         'bintree_free_left/right are only called on an existing node (they dereference it); the empty tree is '
         'covered for the iterators and bintree_free',
         '"never reads a node after it has been deallocated" is observed exactly (revoked page, any load or store faults) '
         'for trees up to the guard-pass bound; above it only through its consequences (following the poisoned link '
         'faults, a store into the poisoned node is seen, the deallocation log goes wrong). A store into a deallocated '
         'node is reported under the same clause as a read.',
-        'the statement\'s "larger random and degenerate shapes sampled" part is not implemented (technique family is '
-        'exhaustive enumeration only); maximal left/right spines and zig-zags up to the node bound are part of the '
-        'enumerated set',
+        'the quantifier\'s "larger random and degenerate shapes sampled" is implemented as a fixed, fully enumerated family of '
+        'degenerate and bushy shapes at stated sizes (the technique family is exhaustive enumeration; nothing is drawn at random)',
+        'the recursive traversals of librfn are the yardstick of the order clause at every size; the harness re-executes itself '
+        'with a 1 GiB stack limit so that a 65 538-deep recursion fits on every build (if the limit cannot be raised the '
+        'comparison is skipped above limit/1 KiB nodes and counted)',
         'list clause: spines exactly as in the header comment (list nodes form one left- or one right-leaning chain, '
         'every other child is an element for which is_list() is false); mixed-direction list trees are outside the '
         'statement and not generated',
+        'the typed wrappers generated by BINTREE_DECLARE_INLINE_WRAPPERS (bintree.h is an anchor file) are held to "does what the '
+        'plain function does"; from_bintree / to_bintree map NULL to NULL',
         'x86-64 only: the under-aligned placement relies on the CPU accepting unaligned pointer loads',
     ],
 )
 CHECK.update(
-    technique='bounded-exhaustive enumeration of all binary tree shapes up to a node bound (Catalan unranking) driving the '
-              'real bintree.c, compared with an independent recursive reference, with byte-image, deallocation-log, '
-              'poison and revoked-page oracles',
+    technique='bounded-exhaustive enumeration of all binary tree shapes up to a node bound (Catalan unranking) plus a fixed family of '
+              'deep shapes and list spines at sizes around every power of two up to 2^16, driving the real bintree.c, compared '
+              'with an independent reference traversal, with link-image, deallocation-log, poison and revoked-page oracles',
     level_text='Every binary tree shape with at most 12 nodes (15 in the thorough tier), including the empty tree, single '
                'nodes and all maximally unbalanced trees, is run through the three threaded iterators and the three free '
-               'variants of the real bintree.c; order is compared with an independent recursive traversal and with '
-               'librfn\'s own recursive traversals, the byte image of all nodes is compared before/after, and the '
+               'variants of the real bintree.c with the nodes placed in memory in ascending, descending and permuted order and '
+               'at 8-aligned and 2-mod-4 addresses; order is compared with an independent traversal and with '
+               'librfn\'s own recursive traversals, every link is compared before/after, and the '
                'deallocator log is checked for exactly-once, children-first and no access after deallocation (page '
-               'revoked per node for shapes up to 9 (12) nodes). List iterator versus bintree_traverse_list on all '
-               'left/right spines of length 1..12 (32). Exhaustive for the stated bounds, nothing sampled.',
-    level_note='Bounded: trees above the node bound are not examined (the algorithms have no size-dependent branches, but '
-               'that is an argument, not a check). Read-after-dealloc is exact only up to the guard-pass bound. Trusted: '
-               'the shape unranking (cross-checked by the distinct-shape count == Catalan sum) and the 20-line recursive '
-               'reference traversals.',
+               'revoked per node for shapes up to 9 (12) nodes). Ten degenerate and bushy shapes are run with the same oracles at '
+               'every node count 13..130 and on both sides of 2^8, 2^9, 1000, 2^10 and 2^16. List iterator versus '
+               'bintree_traverse_list on left/right spines of every length 1..130 and around 2^8, 2^9, 1000, 2^10, 2^16. The '
+               'typed wrapper macro is instantiated and compared with the plain functions. Repeated on gcc -Os, -O0, -DNDEBUG '
+               '(and clang). Exhaustive for the stated bounds, nothing sampled.',
+    level_note='Bounded: between the exhaustive node bound and the deep family only the ten family shapes are examined, and above '
+               '65 538 nodes nothing. Quadratic operations at 2^16 nodes only in the thorough tier. Read-after-dealloc is exact '
+               'only up to the guard-pass bound. Trusted: the shape unranking (cross-checked by the distinct-shape count == '
+               'Catalan sum), the family generators and the 25-line explicit-stack reference traversals.',
     design_ref='DESIGN.md section 4, C11',
 )
 
